@@ -129,7 +129,7 @@ func (ex *Exec) havocGuards(st *State, ls *LockSpec, self Val) {
 		}
 		nv := st.fresh("guarded."+g, so)
 		if isRefLike(ft) {
-			st.assume(fmt.Sprintf("(> %s %d)", nv, -(ex.nalloc + 1)))
+			st.assume("(> " + nv + " " + smtInt(int64(-(ex.nalloc+1))) + ")")
 		}
 		st.write(fp.Arr, so, self.T, nv)
 	}
